@@ -1,6 +1,7 @@
 package main
 
 import (
+	"encoding/json"
 	"fmt"
 	"regexp"
 	"time"
@@ -16,6 +17,8 @@ var c15Patterns = []string{
 	"^a", "^A", "a", "a ", " a", "^a$", "^ab", "^a|b", "ab", "ba", "^[a-c]+$", "^[A-C]+$", "[a-c]+", "(", "(a", "a)", "[", "^a.", "^a.*", "a$", "A$", `\d+`, `\D+`, "^.{2}$", "^.{3}$", "", "(?i)^a", "^b",
 	// invalid patterns whose offending fragment (what regexp/syntax quotes in its error) is itself a valid pattern, next to that fragment
 	"[9-0]", "9-0", "a{2,1}", "{2,1}", `a\`, "^[z-a]$", "z-a", `\8`, "x**", "**",
+	// invalid patterns whose defects cancel when their texts are glued together (alternation, concatenation)
+	"(b", "a)", "x[", "y]", "(?:a", "b)", "[a", "b]",
 }
 var c15Subjects = []string{"", "a", "A", "ab", "ba", "b", "abc", "ABC", "a ", " a", "aa", "12", "x", "Ab", "cab"}
 
@@ -205,7 +208,14 @@ func genC15(seed uint64) *Scenario {
 				// patternProperties: the key must match P, then the value must be an integer; nothing else is allowed
 				op.Kind = KAgainst
 				op.Role = "pattern-properties"
-				op.Schema = js(M{"type": "object", "patternProperties": M{p: M{"type": "integer"}}, "additionalProperties": false})
+				pp := M{p: M{"type": "integer"}}
+				if r.Chance(450) {
+					// several patterns side by side, valid and invalid ones: a member is covered iff one that compiles matches it
+					for k := 0; k < r.Range(1, 2); k++ {
+						pp[pick(r, append(pats, "(b", "a)", "x[", "y]"))] = M{"type": "integer"}
+					}
+				}
+				op.Schema = js(M{"type": "object", "patternProperties": pp, "additionalProperties": false})
 				if s == "" || s == "$schema" || s == "id" {
 					s = "k"
 					op.Str = s
@@ -273,6 +283,19 @@ func runC15(sc *Scenario, keepLog bool) *RunReport {
 			got := cr.Outs[ti][i]
 			ok, match := stdExpect(op.Pattern, op.Str)
 			wantValid := ok && match
+			if op.Role == "pattern-properties" {
+				// the member is allowed iff at least one of the patterns compiles and matches its name
+				var sch struct {
+					PP map[string]json.RawMessage `json:"patternProperties"`
+				}
+				_ = json.Unmarshal([]byte(op.Schema), &sch)
+				wantValid = false
+				for pat := range sch.PP {
+					if c, m := stdExpect(pat, op.Str); c && m {
+						wantValid = true
+					}
+				}
+			}
 			if got.Panic != "" {
 				rep.Violations = append(rep.Violations, Violation{Property: "C15", Class: "outcome-mismatch", OpUID: op.UID, OpKind: op.Kind, Site: "panic",
 					Expected: fmt.Sprintf("valid=%v", wantValid), Got: got.Key(), Detail: fmt.Sprintf("task %d op #%d (%s) panicked", ti, i, op.brief())})
@@ -323,6 +346,7 @@ func init() {
 		Run:       runC15,
 		QuickRuns: 16000, ThoroughS: 900,
 		Rule: "one run = 1..8 (occasionally 16..64) simulated caller goroutines issuing Pattern() calls and schema validations with pattern / patternProperties over a small alphabet of valid and invalid patterns chosen to collide under wrong cache keys, " +
+			"or (5% of the runs) one caller rotating over bound-1..bound+3 distinct patterns for 2..4 laps / readers re-using the oldest entries of a cache pre-filled with bound+0..3 patterns while writers make first-time uses, for plausible cache bounds 8..512 (1024 in the thorough tier); " +
 			"starting from a cold cache, under a seeded schedule with scheduling points before every atomic load/store and mutex operation of the regexp cache and every pool operation; oracle = regexp.Compile of that very pattern; built with -race. " +
 			"non-trivial = at least one context switch inside the run, or a sequential history; distinct = distinct (operation kinds, pattern/subject sequence, switch sites)",
 		Real: commonReal,
